@@ -1,7 +1,7 @@
 (* C09 — HDLC frames follow the frame format, round-trip; corruption never alters content.
    (partial: see the level note in MANIFEST.json and DESIGN.md; the parse-after-build and
    corruption statements are checked by exhaustive fault enumeration on the implementation) *)
-From Dlms Require Import Base CrcModel CrcSpec FieldsSpec AddrModel AddrSpec AddrProofs FrameModel FrameSpec FrameProofs.
+From Dlms Require Import CrcSpec CrcDetect FrameDetect Base CrcModel CrcSpec FieldsSpec AddrModel AddrSpec AddrProofs FrameModel FrameSpec FrameProofs.
 
 (* every frame the library can build (all six kinds, addresses in the C13 domain, numbers 0..7,
    both flag bits, any payload with total length <= 2047) serialises to
@@ -22,6 +22,29 @@ Proof. exact frame_acceptance_sound. Qed.
 Theorem C09_resize_refused : forall k b, N.land (be_val (slice 1 3 b)) 2047 + 2 <> len b ->
   exists e, frame_from_bytes k b = Err e.
 Proof. exact frame_resize_refused. Qed.
+
+(* corruption: a valid frame hit by ANY single error burst of at most 16 bits between its flags (pattern p <> 0 below 2^16
+   starting at bit s of the byte at offset 1 + before; a single flipped bit is p = 1) is refused by every parser, for frames of
+   every length *)
+Theorem C09_burst_error_refused : forall k b before after p s,
+  p < 65536 -> p <> 0 -> s < 8 -> length b = (before + after + 5)%nat ->
+  bytes_ok b -> bytes_ok (xor_bytes b (frame_error before after p s)) -> fcs_valid b ->
+  exists e, frame_from_bytes k (xor_bytes b (frame_error before after p s)) = Err e.
+Proof. exact burst_error_refused. Qed.
+Print Assumptions C09_burst_error_refused.
+(* ... including bursts that end in the last bytes of the frame check sequence *)
+Theorem C09_burst_error_at_end_refused : forall k b before m p s,
+  p < 65536 -> p <> 0 -> s < 8 -> (1 <= m <= 3)%nat -> p * 2 ^ s < 256 ^ N.of_nat m -> length b = (before + m + 2)%nat -> (4 <= length b)%nat ->
+  bytes_ok b -> bytes_ok (xor_bytes b (frame_error_end before m p s)) -> fcs_valid b ->
+  exists e, frame_from_bytes k (xor_bytes b (frame_error_end before m p s)) = Err e.
+Proof. exact burst_error_at_end_refused. Qed.
+Print Assumptions C09_burst_error_at_end_refused.
+(* the register is linear, and every burst has a non-zero syndrome *)
+Theorem C09_crc_detects_bursts : forall m before after p s, p < 65536 -> p <> 0 -> s < 8 ->
+  length m = (before + 3 + after)%nat ->
+  x25_reg (xor_bytes m (burst_error before after p s)) <> x25_reg m.
+Proof. exact corrupted_crc_differs. Qed.
+Print Assumptions C09_crc_detects_bursts.
 
 Example C09_nonvacuous :
   let f := {| f_dest := (16, None, false); f_src := (1, Some 17, true); f_payload := Some [0xE6; 0xE7; 0x00; 0x7E];
